@@ -192,7 +192,9 @@ func (i *IPC) ClientOffers(arg messages.Arg, response *[]byte) error {
 
 	snowflake := i.matchSnowflake(offer.natType)
 	if snowflake != nil {
+		vhook("c.offer", snowflake.id)
 		snowflake.offerChannel <- offer
+		vhook("c.sent", snowflake.id)
 	} else {
 		i.ctx.metrics.lock.Lock()
 		i.ctx.metrics.clientDeniedCount++
@@ -210,6 +212,7 @@ func (i *IPC) ClientOffers(arg messages.Arg, response *[]byte) error {
 	// Wait for the answer to be returned on the channel or timeout.
 	select {
 	case answer := <-snowflake.answerChannel:
+		vhook("c.answer", answer)
 		i.ctx.metrics.lock.Lock()
 		i.ctx.metrics.clientProxyMatchCount++
 		i.ctx.metrics.promMetrics.ClientPollTotal.With(prometheus.Labels{"nat": offer.natType, "status": "matched"}).Inc()
@@ -219,14 +222,17 @@ func (i *IPC) ClientOffers(arg messages.Arg, response *[]byte) error {
 		// Initial tracking of elapsed time.
 		i.ctx.metrics.clientRoundtripEstimate = time.Since(startTime) / time.Millisecond
 	case <-time.After(time.Second * ClientTimeout):
+		vhook("c.timeout")
 		log.Println("Client: Timed out.")
 		resp := &messages.ClientPollResponse{Error: messages.StrTimedOut}
 		err = sendClientResponse(resp, response)
 	}
 
+	vhook("c.precleanup", snowflake.id)
 	i.ctx.snowflakeLock.Lock()
 	i.ctx.metrics.promMetrics.AvailableProxies.With(prometheus.Labels{"nat": snowflake.natType, "type": snowflake.proxyType}).Dec()
 	delete(i.ctx.idToSnowflake, snowflake.id)
+	vhook("c.cleanup", snowflake.id)
 	i.ctx.snowflakeLock.Unlock()
 
 	return err
@@ -244,6 +250,7 @@ func (i *IPC) matchSnowflake(natType string) *Snowflake {
 	i.ctx.snowflakeLock.Lock()
 	defer i.ctx.snowflakeLock.Unlock()
 
+	vhook("c.match", natType, vroot(snowflakeHeap), snowflakeHeap.Len())
 	if snowflakeHeap.Len() > 0 {
 		return heap.Pop(snowflakeHeap).(*Snowflake)
 	} else {
@@ -260,6 +267,7 @@ func (i *IPC) ProxyAnswers(arg messages.Arg, response *[]byte) error {
 	var success = true
 	i.ctx.snowflakeLock.Lock()
 	snowflake, ok := i.ctx.idToSnowflake[id]
+	vhook("a.lookup", id, ok, answer)
 	i.ctx.snowflakeLock.Unlock()
 	if !ok || snowflake == nil {
 		// The snowflake took too long to respond with an answer, so its client
@@ -275,7 +283,9 @@ func (i *IPC) ProxyAnswers(arg messages.Arg, response *[]byte) error {
 	*response = b
 
 	if success {
+		vhook("a.send", id, answer)
 		snowflake.answerChannel <- answer
+		vhook("a.sent", id, answer)
 	}
 
 	return nil
